@@ -220,3 +220,58 @@ func ctorOfInner(v ssa.Value) string {
 	}
 	return eng.Expr(v)
 }
+
+// c02MountRelative (C02.1): the root-path and login-path tables of a mount are
+// consulted with the request path made relative to THAT mount: the prefix that
+// is trimmed is the mount found by the lookup, and it is trimmed from the very
+// key that was looked up (the namespace-qualified path). Trimming it from the
+// unqualified path leaves the mount prefix in place inside a child namespace,
+// nothing matches the mount's root paths any more and sudo is no longer
+// required there (seed C02-b).
+func c02MountRelative(c *eng.Ctx) {
+	c.Clause("R5", "C02.1")
+	n := 0
+	for _, f := range c.P.Funcs {
+		if !eng.InPkg(f, "routing") {
+			continue
+		}
+		for _, tp := range eng.Calls(f, `^strings\.TrimPrefix$`) {
+			a := tp.Common().Args
+			ex, ok := a[1].(*ssa.Extract)
+			if !ok || ex.Index != 0 {
+				continue
+			}
+			lp, ok := ex.Tuple.(*ssa.Call)
+			if !ok || !strings.HasSuffix(eng.CalleeName(&lp.Call), "go-radix.Tree).LongestPrefix") {
+				continue
+			}
+			n++
+			looked := lp.Call.Args[len(lp.Call.Args)-1]
+			site := "mount prefix trimmed from the key that was looked up"
+			if a[0] == looked || eng.ExprDeep(a[0]) == eng.ExprDeep(looked) {
+				c.OK(f, site, tp.Pos(), eng.ExprDeep(looked))
+			} else {
+				c.Violation(f, site, tp.Pos(), "the mount prefix found for "+eng.ExprDeep(looked)+" is trimmed from "+eng.ExprDeep(a[0])+": inside a child namespace the remainder keeps the mount prefix and matches none of the mount's root/login paths", nil)
+			}
+		}
+	}
+	c.Floor(nil, "mount-relative remainders", n, 2)
+	// what RootPath / LoginPath match against their tables is that remainder
+	for _, fn := range []string{"routing.(*Router).RootPath", "routing.(*Router).LoginPath"} {
+		f := c.Fn(fn)
+		if f == nil {
+			continue
+		}
+		lps := eng.Calls(f, `go-radix\.Tree\)\.LongestPrefix$`)
+		m := 0
+		for _, lp := range lps {
+			recv := eng.Expr(lp.Common().Args[0])
+			if strings.HasSuffix(recv, ".root") {
+				continue
+			}
+			m++
+			c.Prov(f, "key matched against the mount's path table", lp, lp.Common().Args[1], `^call:strings\.TrimPrefix$`)
+		}
+		c.Floor(f, "path-table lookups", m, 1)
+	}
+}
